@@ -106,3 +106,18 @@ Definition read_frame (encrypted : bool) (s : bytes) : verdict :=
   | Some v => v
   | None => read_message encrypted (skipn 2 s)
   end.
+
+(* ---- the configuration dimension ----
+   NewTCPTransport derives the flag `encrypted` (payload checksum off on both
+   sides) from the NodeHostConfig; GetConnection / GetSnapshotConnection /
+   serveConn pass t.encrypted on.  The source of the flag is a regenerated fact:
+   when it is not `nhConfig.MutualTLS` the model assumes the worst (checksum off
+   whatever the configuration says). *)
+Record tcfg := mkCfg { c_mutual_tls : bool; c_cafile : bool; c_certfile : bool; c_keyfile : bool }.
+
+Definition transport_encrypted (c : tcfg) : bool :=
+  if encrypted_is_mutual_tls && frame_calls_pass_encrypted then c_mutual_tls c else true.
+
+Definition read_frame_cfg (c : tcfg) (s : bytes) : verdict := read_frame (transport_encrypted c) s.
+Definition write_message_cfg (c : tcfg) (h : header) (payload : bytes) : bytes :=
+  write_message h payload (transport_encrypted c).
